@@ -6,10 +6,17 @@ Contract (sidecar, on the real functions):  for every hierarchy g the encoder ac
     (datetimes to the unit, 64-bit integers, NaN / +-inf / -0.0, booleans, non-ASCII strings), attrs with tuples as tuples
     and lists as lists at any nesting, and every field of the image array (url, shape, dtype, byte ranges, type code,
     filesystem root) with records_per_chunk := normalize(rpc).
-Decided by BOUNDED checking of the contract on the real functions over (a) the groups the reader produces from synthetic
-products (both levels, extreme field values) and (b) generated hierarchies covering every dtype kind b,i,u,f,M,m,U in
-0-d..2-d shapes with boundary values, and nested attrs. A symbolic treatment of numpy's tolist / array round trip is out of
-the verifier's reach (DESIGN.md §6); labelled bounded, never counted as proved.
+Decided in two parts.
+ * Deductive (props/codec.py): structural induction over the hierarchy. Every encoder / decoder function is executed by pyvc
+   once per constructor of its argument with opaque children, calls on children go through the induction hypothesis; lists,
+   tuples and mappings have symbolic length. Proved: tuple tagging is inverted by the real object hook; each document carries
+   exactly the object's fields and is rebuilt from exactly these, children in order, with the read-time records_per_chunk;
+   decode_array(encode_array(A)) is, per dtype kind and path, an instance of one of four stated numpy conversion axioms.
+ * Bounded (this file): the axioms themselves - numpy's tolist / array / datetime arithmetic and json's number and string
+   round trip are outside the verifier's reach (DESIGN.md §6) - validated on (a) the groups the reader produces from
+   synthetic products (both levels, extreme field values) and (b) generated hierarchies covering every dtype kind
+   b,i,u,f,M,m,U in 0-d..2-d shapes with boundary values, and nested attrs; labelled bounded, never counted as proved. The
+   same runs stand in when a changed function body leaves the verified subset.
 """
 from __future__ import annotations
 
@@ -185,6 +192,7 @@ def run(ses):
         outer = Group(path="/outer", url="u", data={"inner": inner, "w": Variable(dims_of(a), a, {})}, attrs=A[(i + 2) % len(A)])
         check(f"generated/{label}", outer)
     n_gen = n
+    bad_gen = list(bad)
     ses.bounded_check("C08/bounded/generated-hierarchies-round-trip", not [b for b in bad],
                       bound=f"{n_gen} hierarchies: 14 dtype variants (kinds b,i,u,f,M,m,U) x shapes (), (0,), (1,), (5,), (2,3), (1,0) "
                             "with boundary values (int64 extremes, > 2**53 ticks, NaN/inf/-0.0, NaT, non-ASCII), nested attrs with "
@@ -235,7 +243,16 @@ def run(ses):
                 function="ceos_alos2.sar_image.caching.encoders.preprocess", backend="syntactic")
     ses.decided("C08/document-is-text", "json.dumps" in inspect.getsource(caching.encode), function="ceos_alos2.sar_image.caching.encode",
                 backend="syntactic")
-    ses.extra_coverage["level_override"] = "exploration"
-    ses.trust("numpy / json (executed, not modelled)", "the structural equality `same` in props/c08.py")
+    # the deductive part: structural induction over the hierarchy on the real functions (props/codec.py); where a function body
+    # leaves the verified subset, the bounded round trips above stand in
+    from props import codec
+
+    codec.run(ses, "C08")
+    all_bad = list(bad_gen) + list(bad2)
+    ses.resolve_engine_limits("codec", lambda: (not all_bad, n, {"input": all_bad[0][0], "observed": all_bad[0][1],
+                                                                 "expected": "decode(encode(g)) == g"} if all_bad else None),
+                              bound_text=f"{n} round trips of generated and reader-produced hierarchies (see the two bounded checks)")
+    ses.trust("numpy / json (executed in the bounded part; in the deductive part they enter through the axioms listed by props/codec.py)",
+              "the structural equality `same` in props/c08.py")
     ses.assume("datetime spans fit timedelta64 of the array's unit (|span| < 292 years for ns); NaN payload bits are not part of "
                "the value (JSON has one NaN)")
